@@ -196,10 +196,21 @@ func ruleRemovalMarksWholeSubtree(c *Ctx) {
 		return
 	}
 	rec := false
-	for _, call := range p.callsIn(fn, "objects.Queue.MarkQueueForRemoval") {
-		if src, _, isRange := p.RangeSource(T(Recv(call), p.StateAt(fn, call))); isRange {
+	// the recursion: a call of MarkQueueForRemoval itself, or of the self-recursive private function it delegates to
+	names := []string{"objects.Queue.MarkQueueForRemoval"}
+	for _, h := range p.HelpersOf(fn) {
+		if hs := p.HelperSite(h); hs != nil && hs.Recursive {
+			names = append(names, h.Name)
+		}
+	}
+	for _, call := range p.callsIn(fn, names...) {
+		owner := p.EnclosingFunc(call.Pos())
+		if owner == nil {
+			continue
+		}
+		if src, _, isRange := p.RangeSource(T(Recv(call), p.StateAt(owner, call))); isRange {
 			d := p.DefOf(src)
-			if gc, ok := unparen(d.E).(*ast.CallExpr); ok && p.IsCall(gc, "objects.Queue.GetCopyOfChildren") && p.isRecvExpr(fn, Recv(gc)) {
+			if gc, ok := unparen(d.E).(*ast.CallExpr); ok && p.IsCall(gc, "objects.Queue.GetCopyOfChildren") && p.isRecvExpr(owner, Recv(gc)) {
 				rec = true
 			}
 		}
@@ -387,7 +398,7 @@ func ruleWildcardClearFlag(c *Ctx) {
 		}
 		calls := p.callsIn(fn, "ugm.UserTracker.clearLimits")
 		for _, call := range calls {
-			ok := len(call.Args) == 2 && p.isConstBool(call.Args[1], want)
+			ok := len(call.Args) >= 2 && p.isConstBool(call.Args[1], want)
 			c.Check("C05.g", "wildcard-only flag in "+shortFn(fnName), call, ok, "clearLimits is called with doWildCardCheck=%s, expected %v", p.Src(call.Args[1]), want)
 		}
 		c.Floor("C05.g", "clearLimits calls in "+shortFn(fnName), len(calls), 1)
@@ -405,7 +416,7 @@ func rulePlaceholderReleaseOnce(c *Ctx) {
 			continue
 		}
 		for _, call := range p.callsInShallow(fn, "objects.Allocation.SetReleased") {
-			if len(call.Args) != 1 || !p.isConstBool(call.Args[0], true) || Recv(call) == nil {
+			if len(call.Args) < 1 || !p.isConstBool(call.Args[0], true) || Recv(call) == nil {
 				continue
 			}
 			st := p.StateAt(fn, call)
